@@ -37,6 +37,9 @@ pub struct Ctx {
     pub base: String,
     /// replay mode: run only this (stage, index)
     pub only: Option<(String, u64)>,
+    /// 1 = every case; k > 1 = in stages of more than 64 cases only the cases with index % k == 0
+    /// (used by the second pass in the build profile without debug assertions, see main.rs)
+    pub stride: u64,
 }
 
 #[derive(Clone, Debug)]
@@ -284,6 +287,7 @@ fn run_stage(ctx: &Ctx, st: &Stage, watchdog: Duration) -> (Report, Vec<StuckCas
         return (rep, vec![]);
     }
     let n = st.n;
+    let stride = if n > 64 { ctx.stride.max(1) } else { 1 };
     let threads = ctx.threads.max(1).min(n.max(1) as usize);
     let next = Arc::new(AtomicU64::new(0));
     let (tx, rx) = mpsc::channel::<(usize, Report)>();
@@ -309,7 +313,7 @@ fn run_stage(ctx: &Ctx, st: &Stage, watchdog: Duration) -> (Report, Vec<StuckCas
                 tid.store(own_tid(), Ordering::SeqCst);
                 let mut rep = Report::default();
                 loop {
-                    let i = next.fetch_add(1, Ordering::SeqCst);
+                    let i = next.fetch_add(stride, Ordering::SeqCst);
                     if i >= n {
                         break;
                     }
